@@ -1690,7 +1690,11 @@ func baseRoot(v ssa.Value) ssa.Value {
 			}
 		case *ssa.UnOp:
 			if x.Op == token.MUL {
-				if cell := eng.CellRoot(x.X); cell != nil {
+				addr := x.X
+				for fa, ok := addr.(*ssa.FieldAddr); ok; fa, ok = addr.(*ssa.FieldAddr) {
+					addr = fa.X // a field of a captured struct parameter
+				}
+				if cell := eng.CellRoot(addr); cell != nil {
 					// single-store cell holding the pointer (captured parameter)
 					var val ssa.Value
 					n := 0
